@@ -175,7 +175,7 @@ def nontrivial(kind, data, o):
 
 
 def main(tier, seed):
-    ck = Check(PID, tier, seed, "Props.C16", ["Model/Wiring.v", "Oracle/WiringCheck.v", "Proofs/WiringP.v", "Props/C16.v"])
+    ck = Check(PID, tier, seed, "Props.C16", ["Model/Wiring.v", "Oracle/WiringCheck.v", "Proofs/WiringP.v", "Model/PyLib.v", "Gen/SourceFuns.v", "Proofs/GenWiringP.v", "Props/C16.v"])
     ck.build_and_audit()
     rng = random.Random(seed)
     cases, n_ex, spaces = gen_cases(tier, rng)
